@@ -54,6 +54,7 @@ func c13Scenarios() []c13Scenario {
 		{"listing-rde2", false, cat([]wire.Req{wire.P(wire.OpOpenDir, "/links")}, rde(wire.OpRDE2, 7), []wire.Req{wire.P(wire.OpOpenDir, "/dir")}, rde(wire.OpRDE2, 3))},
 		{"stat-dirsize", false, []wire.Req{wire.P(wire.OpStat, "/dir/a.txt"), wire.P(wire.OpDirSize, "/dir"), wire.P(wire.OpStat, "/links/lfile"), wire.P(wire.OpDirSize, "/"), wire.P(wire.OpStat, "/nope")}},
 		{"upload", true, []wire.Req{wire.P(wire.OpCreate, "/up/new.bin"), wire.Write(tree.Content(1, 70000)), wire.Write(tree.Content(2, 10)), wire.P(wire.OpCreate, "/up/second.bin"), wire.Write(tree.Content(3, 3000)), wire.P(wire.OpMkdir, "/up/d"), wire.P(wire.OpDelete, "/up/second.bin"), wire.P(wire.OpRmdir, "/up/d"), wire.P(wire.OpCreate, "/up/old.bin"), wire.Write(tree.Content(4, 100))}},
+		{"opendir-of-files", false, []wire.Req{wire.P(wire.OpOpenDir, "/file.bin"), wire.Bare(wire.OpRDE), wire.P(wire.OpOpenDir, "/dir"), wire.P(wire.OpOpenDir, "/big.bin"), wire.Bare(wire.OpReadDir), wire.P(wire.OpOpenDir, "/PS3ISO/enc.iso"), wire.P(wire.OpOpenDir, "/nope"), wire.P(wire.OpOpenDir, "/links/lfile")}},
 		{"mixed-handles", false, []wire.Req{wire.P(wire.OpOpenDir, "/dir"), wire.P(wire.OpOpen, "/file.bin"), wire.Bare(wire.OpRDE), wire.Read(100, 0), wire.P(wire.OpOpen, "/***DVD***/dir"), wire.P(wire.OpOpenDir, "/links"), wire.Read(4096, 0), wire.P(wire.OpOpen, "/PS3ISO/enc.iso"), wire.Bare(wire.OpReadDir), wire.Crit(100, 5000)}},
 	}
 }
@@ -365,7 +366,7 @@ func C13(e *Env) {
 			}
 			plans = append(plans, plan{[]spyfs.Fault{{Index: i, Kind: spyfs.FEIO}}, fmt.Sprintf("EIO at op #%d (%s)", i, opk), "eio", opk})
 			if opk == "read" {
-				for _, k := range []int{1, 511, 2047} {
+				for _, k := range []int{1, 2, 4, 5, 7, 15, 511, 2047} {
 					plans = append(plans, plan{[]spyfs.Fault{{Index: i, Kind: spyfs.FShort, K: k}}, fmt.Sprintf("short read (%d bytes) at op #%d", k, i), "short", opk})
 				}
 			}
@@ -517,6 +518,7 @@ func c13RunFaulted(e *Env, t *c13Target, sc c13Scenario, ref [][]byte, desc stri
 	defer c.Close()
 	outcome := "same"
 	imgPS3, isImg := false, false
+	dirFree := false
 	for i, r := range sc.Reqs {
 		if i >= len(ref) {
 			break
@@ -557,6 +559,17 @@ func c13RunFaulted(e *Env, t *c13Target, sc c13Scenario, ref [][]byte, desc stri
 			}
 			run.Violate("wrong-bytes-under-fault", sc.Name+": "+r.Op.String(), fmt.Sprintf("[%s, %s] %s: %d bytes before the disconnection are not a prefix of the file content (first difference at %d)", sc.Name, desc, r, len(got), firstDiffIdx(refI, got)), map[string]any{"scenario": sc.Name, "fault": desc, "request": r.String()})
 			return "violation"
+		}
+		// after an OPENDIR that (also without fault) fails, which directory is open is unspecified: the
+		// listing requests that follow are only held to their framing
+		if r.Op == wire.OpOpenDir && len(ref[i]) == 4 {
+			dirFree = wire.I32(ref[i]) != 0
+		}
+		if dirFree && opIn(r.Op, wire.OpReadDir, wire.OpRDE, wire.OpRDE2) {
+			if st != wire.Full {
+				return "prefix-eof"
+			}
+			continue
 		}
 		v, detail := c13Judge(r, refI, got, st)
 		switch v {
@@ -644,13 +657,27 @@ func c13Endings(e *Env, tro, trw *c13Target, scen []c13Scenario) {
 					c.ExpectEOF()
 					c.Close()
 				case "timeout":
-					// stay silent (or stalled mid-request) until the server cuts the connection
-					if cut%2 == 0 {
+					// stay silent, stalled inside the command, or stalled after a complete command whose path
+					// (or upload payload) is still missing, until the server cuts the connection
+					where := "silent"
+					switch cut % 3 {
+					case 0:
 						c.SendRaw([]byte{0x12, 0x30, 0x00})
+						where = "inside the 16-byte command"
+					case 1:
+						b := wire.P(wire.OpStat, "/file.bin").Bytes()
+						c.SendRaw(b[:16+4])
+						where = "after the command, inside the path"
 					}
 					_, st := c.ExpectEOF()
 					if st == wire.Timeout {
-						run.Inconclusive("read-timeout ending: server did not cut within the watchdog")
+						// the ending never happened: whatever the connection holds stays open for as long as the
+						// client keeps the socket. Only a responsive server makes this a verdict.
+						if host.Probe(t.p.HostPort()) == nil {
+							run.Violate("timeout-ending-missing", "stalled "+where, fmt.Sprintf("[%s after %d requests] the connection stalled %s was not cut by the 150 ms read timeout within the %v watchdog although the server answers a fresh connection: its handles stay open", sc.Name, cut, where, e.Watchdog), map[string]any{"scenario": sc.Name, "requests": reqStrings(sc.Reqs[:cut]), "stalled": where})
+						} else {
+							run.Inconclusive("read-timeout ending: server did not cut within the watchdog")
+						}
 					}
 					c.Close()
 				}
